@@ -1,24 +1,444 @@
-// Package cmdmodel is an executable model of Windows cmd.exe for exactly the
-// subset of Batch that /repo/converters/batch/converter.go can emit.
+// Package cmdmodel is an executable model of Windows cmd.exe for exactly the subset of
+// Batch that /repo/converters/batch/converter.go can emit.
+//
+// The model follows cmd.exe's documented processing order (see DESIGN.md Appendix A):
+//
+//	phase 0/1  a logical line is read from the current file offset, physical line by physical
+//	           line; every physical line is %-expanded when it is read (%% -> %, %1..%9, %~1,
+//	           %name%, %name:~a,n%), all CR are dropped; a parenthesised block is read, expanded
+//	           and parsed completely before any of it runs
+//	phase 2    special characters: quotes, ^ escapes (and ^ line continuation), & | < > ( ),
+//	           recognition of IF / FOR / REM / labels
+//	phase 4    FOR variables (%i) are substituted when the body command runs
+//	phase 5    delayed expansion (!name!, !name:~a,n!, ^! escapes) per command token when the
+//	           command runs
+//	phase 6    CALL re-runs the % phase on its (already expanded) arguments
+//
+// Everything the model is not sure about makes the run "unmodelled" (Result.Unmodelled names the
+// rule); it never guesses. Things cmd.exe itself would complain about (missing label, division by
+// zero, unbalanced parenthesis, for /f over a missing file) are reported in Result.Error: they are
+// properties of the script. The model stops at the first such event (cmd.exe would go on after some
+// of them); Result.Stdout then holds the output up to that point.
+//
+// Trust base. calib/run.sh executes the Windows half of the repository's own test suite under this
+// model (161 of 165 expectations reproduced, 4 unmodelled: external programs). Deliberately wrong
+// variants of the model showed which rules those expectations pin down: label search starting
+// after the current block, !name:~a,n! arithmetic, ^! handling, commands after a label inside a
+// block, unary + in set /A, re-reading of a line after goto. Rules the corpus cannot distinguish
+// rest on cmd.exe's documentation alone: string comparison of quoted numbers ("9" > "10"),
+// splitting of a for /f string at line feeds, exit /B without a number keeping ERRORLEVEL,
+// %-expansion of a whole block when it is read, endlocal inside a called frame (decided only when
+// both readings agree, see Run).
 package cmdmodel
+
+import (
+	"fmt"
+	"sort"
+	"strings"
+)
 
 // Options configure one run.
 type Options struct {
-	Stdin    string
+	Stdin    string            // not consumed by any modelled command (set /p is unmodelled)
 	MaxSteps int               // default 2e6
 	Files    map[string]string // virtual file system: path -> content, mutated by the run
 }
 
 // Result is the observation of one run.
 type Result struct {
-	Stdout     string
-	Exit       int
-	Unmodelled string
-	Error      string
+	Stdout     string // with "\r\n" line ends exactly as cmd would print (echo prints text+CRLF)
+	Exit       int    // exit status of the script (exit /B n in outermost frame / end of file)
+	Unmodelled string // non-empty: the run touched something the model refuses to guess; Stdout/Exit then meaningless
+	Error      string // non-empty: the script did something cmd.exe would report as an error; Stdout holds the output up to that point
 	Steps      int
 }
 
-// Run interprets script.
+const defaultMaxSteps = 2_000_000
+
+// maxCallDepth bounds call nesting: cmd.exe has its own (much larger, build-dependent) limit;
+// deeper scripts are unmodelled rather than guessed.
+const maxCallDepth = 400
+
+type abortKind int
+
+const (
+	abortUnmodelled abortKind = iota
+	abortError
+)
+
+type abort struct {
+	kind abortKind
+	msg  string
+}
+
+type envVar struct {
+	name  string // spelling of the first definition
+	value string
+}
+
+type localFrame struct {
+	env     map[string]envVar
+	delayed bool
+	depth   int // call depth that issued the setlocal
+}
+
+type callFrame struct {
+	label string   // %0
+	args  []string // %1...
+}
+
+type interp struct {
+	src       string
+	pos       int
+	env       map[string]envVar
+	out       strings.Builder
+	steps     int
+	maxSteps  int
+	errlevel  int
+	files     map[string]string
+	echoOn    bool
+	delayed   bool
+	locals    []localFrame
+	frames    []callFrame
+	forVars   map[byte]string
+	forOrder  []byte
+	labels    []labelPos // every label line of the file, in file order
+	labelsOK  bool
+	endlocalB bool // alternative reading of rule 8: endlocal in a called frame pops the caller's setlocal
+	ambiguous bool // an endlocal ran in a called frame that had no setlocal of its own
+}
+
+// Run interprets script under the model.
 func Run(script string, o Options) Result {
-	return Result{Unmodelled: "not implemented"}
+	if o.Files == nil {
+		o.Files = map[string]string{}
+	}
+	before := copyFiles(o.Files)
+	r := runOnce(script, o, false)
+	if r.Unmodelled != "" || !r.ambiguous {
+		return r.Result
+	}
+	// Rule 8: endlocal inside a called frame. Documented reading: it cannot end the caller's
+	// setlocal. If the opposite reading changes the observation, refuse to decide.
+	o2 := o
+	o2.Files = before
+	r2 := runOnce(script, o2, true)
+	if r2.Unmodelled != "" || r2.Stdout != r.Stdout || r2.Exit != r.Exit || r2.Error != r.Error || !sameFiles(o2.Files, o.Files) {
+		res := r.Result
+		res.Unmodelled = "rule 8: endlocal executed inside a called frame and the result depends on whether it ends the caller's setlocal"
+		return res
+	}
+	return r.Result
+}
+
+type runResult struct {
+	Result
+	ambiguous bool
+}
+
+func copyFiles(m map[string]string) map[string]string {
+	c := make(map[string]string, len(m))
+	for k, v := range m {
+		c[k] = v
+	}
+	return c
+}
+
+func sameFiles(a, b map[string]string) bool {
+	if len(a) != len(b) {
+		return false
+	}
+	for k, v := range a {
+		if w, ok := b[k]; !ok || w != v {
+			return false
+		}
+	}
+	return true
+}
+
+func runOnce(script string, o Options, endlocalB bool) (rr runResult) {
+	in := &interp{
+		src:       script,
+		env:       map[string]envVar{},
+		maxSteps:  o.MaxSteps,
+		files:     o.Files,
+		echoOn:    true,
+		forVars:   map[byte]string{},
+		endlocalB: endlocalB,
+	}
+	if in.maxSteps <= 0 {
+		in.maxSteps = defaultMaxSteps
+	}
+	if in.files == nil {
+		in.files = map[string]string{}
+	}
+	// The only environment variable whose value is the same on every Windows NT system.
+	in.setVar("OS", "Windows_NT")
+	in.frames = []callFrame{{label: ""}}
+	defer func() {
+		rr.Stdout = in.out.String()
+		rr.Steps = in.steps
+		rr.ambiguous = in.ambiguous
+		if x := recover(); x != nil {
+			a, ok := x.(abort)
+			if !ok {
+				panic(x)
+			}
+			switch a.kind {
+			case abortUnmodelled:
+				rr.Unmodelled = a.msg
+			case abortError:
+				rr.Error = a.msg
+				rr.Exit = 1
+			}
+		}
+	}()
+	in.runFrame()
+	rr.Exit = in.errlevel
+	return rr
+}
+
+func (in *interp) unmodelled(format string, a ...any) {
+	panic(abort{abortUnmodelled, fmt.Sprintf(format, a...)})
+}
+
+func (in *interp) scriptError(format string, a ...any) {
+	panic(abort{abortError, fmt.Sprintf(format, a...)})
+}
+
+func (in *interp) step() {
+	in.steps++
+	if in.steps > in.maxSteps {
+		panic(abort{abortUnmodelled, "step budget"})
+	}
+}
+
+// ---------------------------------------------------------------------------------------------
+// environment
+
+// Variables cmd.exe computes on the fly or that differ from machine to machine: reading them
+// is unmodelled (ERRORLEVEL is modelled).
+var volatileVars = map[string]bool{
+	"CD": true, "DATE": true, "TIME": true, "RANDOM": true, "CMDEXTVERSION": true, "CMDCMDLINE": true,
+	"HIGHESTNUMANODENUMBER": true, "PATH": true, "PATHEXT": true, "COMSPEC": true, "TEMP": true, "TMP": true,
+	"USERNAME": true, "USERPROFILE": true, "USERDOMAIN": true, "COMPUTERNAME": true, "HOMEDRIVE": true,
+	"HOMEPATH": true, "SYSTEMROOT": true, "SYSTEMDRIVE": true, "WINDIR": true, "PROMPT": true,
+	"PROCESSOR_ARCHITECTURE": true, "NUMBER_OF_PROCESSORS": true, "PROGRAMFILES": true, "PROGRAMDATA": true,
+	"APPDATA": true, "LOCALAPPDATA": true, "ALLUSERSPROFILE": true, "PUBLIC": true, "LOGONSERVER": true,
+	"PROCESSOR_IDENTIFIER": true, "PROCESSOR_LEVEL": true, "PROCESSOR_REVISION": true, "SESSIONNAME": true,
+	"COMMONPROGRAMFILES": true, "PROGRAMFILES(X86)": true, "PROGRAMW6432": true, "PSMODULEPATH": true,
+	"DRIVERDATA": true, "__APPDIR__": true, "__CD__": true,
+}
+
+func (in *interp) getVar(name string) (string, bool) {
+	key := strings.ToUpper(name)
+	if v, ok := in.env[key]; ok {
+		return v.value, true
+	}
+	if key == "ERRORLEVEL" {
+		return fmt.Sprint(in.errlevel), true
+	}
+	if volatileVars[key] {
+		in.unmodelled("rule 2: read of machine-dependent or dynamic variable %s", key)
+	}
+	return "", false
+}
+
+func (in *interp) setVar(name, value string) {
+	key := strings.ToUpper(name)
+	if value == "" {
+		delete(in.env, key)
+		return
+	}
+	if old, ok := in.env[key]; ok {
+		in.env[key] = envVar{old.name, value}
+		return
+	}
+	in.env[key] = envVar{name, value}
+}
+
+func (in *interp) copyEnv() map[string]envVar {
+	c := make(map[string]envVar, len(in.env))
+	for k, v := range in.env {
+		c[k] = v
+	}
+	return c
+}
+
+// ---------------------------------------------------------------------------------------------
+// frames, labels
+
+type ctlKind int
+
+const (
+	ctlNone ctlKind = iota
+	ctlGoto
+	ctlExit
+)
+
+type ctl struct {
+	kind  ctlKind
+	label string
+}
+
+// runFrame executes logical lines from in.pos until the frame ends (exit /B, goto :eof, end of file).
+func (in *interp) runFrame() {
+	for {
+		n, ok := in.readLogical()
+		if !ok {
+			return
+		}
+		c := in.exec(n)
+		switch c.kind {
+		case ctlGoto:
+			in.pos = in.findLabel(c.label, in.pos)
+		case ctlExit:
+			return
+		}
+	}
+}
+
+type labelPos struct {
+	name  string // upper case
+	after int    // offset of the line after the label line
+	start int
+}
+
+func isLabelChar(c byte) bool {
+	return c == '_' || c >= '0' && c <= '9' || c >= 'a' && c <= 'z' || c >= 'A' && c <= 'Z'
+}
+
+// indexLabels scans the raw file (no expansion, as GOTO does) for label lines.
+func (in *interp) indexLabels() {
+	in.labelsOK = true
+	src := in.src
+	for off := 0; off < len(src); {
+		end := strings.IndexByte(src[off:], '\n')
+		next := len(src)
+		lineEnd := len(src)
+		if end >= 0 {
+			lineEnd = off + end
+			next = lineEnd + 1
+		}
+		line := strings.TrimRight(src[off:lineEnd], "\r")
+		t := strings.TrimLeft(line, " \t")
+		if strings.HasPrefix(t, ":") && !strings.HasPrefix(t, "::") {
+			body := t[1:]
+			j := 0
+			for j < len(body) && isLabelChar(body[j]) {
+				j++
+			}
+			rest := body[j:]
+			name := body[:j]
+			if j == 0 || strings.Trim(rest, " \t") != "" {
+				// a label spelling outside [A-Za-z0-9_]: cmd's delimiter rules for labels are not modelled
+				name = "\x00" + body
+			}
+			in.labels = append(in.labels, labelPos{strings.ToUpper(name), next, off})
+		}
+		off = next
+	}
+}
+
+// findLabel implements rule 6: search from offset `from` to the end of the file, then from the
+// start up to `from`; first match wins.
+func (in *interp) findLabel(label string, from int) int {
+	if !in.labelsOK {
+		in.indexLabels()
+	}
+	for i := 0; i < len(label); i++ {
+		if !isLabelChar(label[i]) {
+			in.unmodelled("rule 6: goto/call target %q uses characters outside [A-Za-z0-9_]", label)
+		}
+	}
+	want := strings.ToUpper(label)
+	var found *labelPos
+	for pass := 0; pass < 2 && found == nil; pass++ {
+		for i := range in.labels {
+			l := &in.labels[i]
+			if pass == 0 && l.start < from || pass == 1 && l.start >= from {
+				continue
+			}
+			if strings.HasPrefix(l.name, "\x00") {
+				// an exotic label line lies on the search path
+				if strings.HasPrefix(strings.ToUpper(l.name[1:]), want) {
+					in.unmodelled("rule 6: label line %q with characters outside [A-Za-z0-9_] could match %q", l.name[1:], label)
+				}
+				continue
+			}
+			if l.name == want {
+				found = l
+				break
+			}
+		}
+	}
+	if found == nil {
+		in.scriptError("The system cannot find the batch label specified - %s", label)
+	}
+	return found.after
+}
+
+// ---------------------------------------------------------------------------------------------
+// virtual file system
+
+func normPath(p string) string {
+	p = strings.ReplaceAll(p, "/", `\`)
+	for strings.HasPrefix(p, `.\`) {
+		p = p[2:]
+	}
+	for strings.Contains(p, `\\`) && !strings.HasPrefix(p, `\\`) {
+		p = strings.ReplaceAll(p, `\\`, `\`)
+	}
+	if len(p) > 1 {
+		p = strings.TrimRight(p, `\`)
+	}
+	return strings.ToLower(p)
+}
+
+func (in *interp) checkPath(p, what string) {
+	if p == "" {
+		in.unmodelled("%s: empty path", what)
+	}
+	for i := 0; i < len(p); i++ {
+		c := p[i]
+		ok := c >= 'a' && c <= 'z' || c >= 'A' && c <= 'Z' || c >= '0' && c <= '9' || strings.IndexByte(`._-\/:`, c) >= 0
+		if !ok {
+			in.unmodelled("%s: path %q contains characters outside [A-Za-z0-9._-\\/:]", what, p)
+		}
+	}
+	if strings.Contains(p, "..") {
+		in.unmodelled("%s: path %q contains ..", what, p)
+	}
+}
+
+func (in *interp) fileKey(p string) (string, bool) {
+	n := normPath(p)
+	keys := make([]string, 0, len(in.files))
+	for k := range in.files {
+		keys = append(keys, k)
+	}
+	sort.Strings(keys)
+	for _, k := range keys {
+		if normPath(k) == n {
+			return k, true
+		}
+	}
+	return "", false
+}
+
+func (in *interp) dirExists(p string) bool {
+	n := normPath(p)
+	if n == "" {
+		return false
+	}
+	prefix := n + `\`
+	if strings.HasSuffix(n, `\`) {
+		prefix = n
+	}
+	for k := range in.files {
+		if strings.HasPrefix(normPath(k), prefix) {
+			return true
+		}
+	}
+	return false
 }
